@@ -30,6 +30,8 @@ inductive Panic where
   | overflow    -- arithmetic overflow in a checked build
   | assertion   -- `assert!` failed
   | index       -- slice / array index out of range
+  | diverge     -- only in GENERATED definitions (Extracted/GlueMac.lean): the fuel of a translated `while` loop ran out; never a
+                -- value of the hand models below, and unreachable in the generated ones (fuel adequacy, Proofs/GlueMac.lean)
   deriving DecidableEq, Repr
 
 /-- which `finish` -/
